@@ -82,6 +82,19 @@ def run(ctx):
                 fp_c = core.flat_coq(flat)
                 T_c = core.types_coq(flat["types"])
             except (core.NotModelled, ValueError) as e:
+                # an initial value recorded as an expression in the start symbol <v>0 of a variable that the program DOES
+                # initialise is wrong whatever the symbol stands for
+                init_vars = {st[1] for st in p["init"] if st[0] == "assign"} | {x for st in p["init"] if st[0] == "simult" for x, _ in st[1]}
+                bad_syms = sorted({m_.group(1) for ent in gr.get("vector", []) for m_ in re.finditer(r"\b([A-Za-z]\w*?)0\b", str(ent))
+                                   if m_.group(1) in init_vars})
+                if bad_syms:
+                    ctx.coverage["obligations"] += 1
+                    ctx.violation(f"init-value-symbolic:{text}:{gen.goal_text(m)}",
+                                  {"program_text": text, "prog_json": P.to_json(p), "goals_json": [P.to_json(m)], "goal": gen.goal_text(m),
+                                   "monomials": gr.get("monomials"), "vector": gr.get("vector")},
+                                  f"system of E({gen.goal_text(m)}): the recorded initial values {gr.get('vector')} mention the start symbol(s) "
+                                  f"{[b + '0' for b in bad_syms]} although the program initialises {bad_syms}\n{text}")
+                    continue
                 errs["not-modelled"] = errs.get("not-modelled", 0) + 1
                 continue
             cm = "cmom_gen" if text in cont_texts else "cm0"
